@@ -897,6 +897,11 @@ func init() {
 			cr.flush()
 		}
 
+		// 2d. Statement.ConnPool of a chained handle after a write (tie with `writeSt` + the property seen on the handle itself)
+		if tier != "search" {
+			c04PoolSuite(r, tier, cr.world)
+		}
+
 		// 3. random trees, up to 3 faults
 		n := 1500
 		depth := 3
